@@ -855,12 +855,14 @@ def consumer_checks(rng, subj, drv, jobs, fails, stats):
                 req = {'ep': 'fetcher', 'index': k, 'dimension': dim, 'entries': ent}
                 stats['consumer_cases'] = stats.get('consumer_cases', 0) + 1
                 npi = tuple(Ellipsis if e == 'E' else slice(*e[1:]) for e in ent)
-                want = numpy.squeeze(full[npi])
+                want = full[npi]
                 _REC['log'] = None
                 try:
                     got = f[tuple(to_py(e) for e in ent)]
                     impl = ('ok', numpy.asarray(got))
-                    if got.shape != want.shape or not numpy.array_equal(got, want):
+                    # whether the helper squeezes length-1 axes is its own choice (the model follows the code; the correspondence compares the
+                    # exact shape): the oracle judges which pixels of which image come back
+                    if got.shape not in (want.shape, numpy.squeeze(want).shape) or not numpy.array_equal(numpy.squeeze(got), numpy.squeeze(want)):
                         fails.append({'kind': 'dispatch', 'subject': subj.desc, 'req': req,
                                       'msg': f'FullResolutionFetcher(index={k})[{sub_tok(tuple(to_py(e) for e in ent))}] does not return the pixels of image {k} '
                                              f'(imaginary parts = image id + 1: {sorted(set(numpy.imag(numpy.asarray(got)).ravel().astype(int).tolist()))[:3]})'})
